@@ -17,7 +17,7 @@ CHANNEL_OF = [
     ("snap archcap", "cap"), ("hinfo ", "hinfo"),
     ("ret ", "ret"), ("panic ", "ret"), ("ub ", "ret"), ("assert ", "ret"), ("bad-op", "ret"),
     ("id ", "ids"), ("t ", "trace"), ("ed", "evdrops"), ("cd", "cdrops"), ("st ", "store"), ("reg ", "reg"),
-    ("snap ", "arch"), ("pend ", "pend"), ("inv ", "inv"), ("pr ", "ids"), ("ca ", "accept"), ("exit ", "exit"),
+    ("snap ", "arch"), ("pend ", "pend"), ("inv ", "inv"), ("pr ", "ids"), ("live ", "ledger"), ("ca ", "accept"), ("exit ", "exit"),
 ]
 
 
